@@ -143,6 +143,15 @@ CHECKS = {
         design_ref='DESIGN.md §5 C13',
         note='Trusted base: vf/refcodec.py readers/writers. Music bit 7 of every 4th byte kept clear; code compared modulo one final newline.',
         technique='runtime monitoring: reference-reader oracle over an enumerated configuration matrix'),
+    'C14': dict(
+        category='exploration',
+        text='The harness writes a main file and a graph of package files built from known pieces (generated code, game-loop functions, require() in every '
+             'syntactic position), runs `p8tool build` and compares the built code under the reference lexer with a reference composition: main program last '
+             'and unchanged, loader present, each expected name defined exactly once, each body token-identical to its source minus stripped game-loop '
+             'definitions; picotool\'s parser must reach the end; unusable require() calls must fail the build.',
+        design_ref='DESIGN.md §5 C14',
+        note='Trusted base: vf/reflex.py; the piece bookkeeping in vf/checks/c14.py. Package order in the table is not prescribed.',
+        technique='runtime monitoring: reference composition oracle over generated package graphs'),
 }
 
 NOT_BUILT = 'check not built yet in this session (design in DESIGN.md §5); not claimed until its monitor runs silent on the unchanged tree'
